@@ -25,6 +25,7 @@ type Spec struct {
 	BudgetS  float64         `json:"budget_s"`
 	Replay   json.RawMessage `json:"replay,omitempty"`
 	Only     string          `json:"only,omitempty"`
+	RaceLog  string          `json:"race_log,omitempty"`
 }
 
 type Violation struct {
@@ -183,4 +184,20 @@ func (o *Out) Save() {
 	if err := os.WriteFile(o.spec.Out, b, 0o644); err != nil {
 		panic(err)
 	}
+}
+
+// RaceReports returns the race detector reports written since the last call
+// (GORACE log_path=<RaceLog>; the runtime appends ".<pid>").
+func (s *Spec) RaceReports(offset *int64) string {
+	if s.RaceLog == "" {
+		return ""
+	}
+	p := fmt.Sprintf("%s.%d", s.RaceLog, os.Getpid())
+	b, err := os.ReadFile(p)
+	if err != nil || int64(len(b)) <= *offset {
+		return ""
+	}
+	out := string(b[*offset:])
+	*offset = int64(len(b))
+	return out
 }
